@@ -104,4 +104,20 @@ PROPS = {
         "stages": [{"driver": "fault", "stage": "api", "flavour": "asan"}, {"driver": "fault", "stage": "small", "flavour": "asan"},
                    {"driver": "fault", "stage": "corpus", "flavour": "asan"}],
     },
+    "C15": {
+        "level": "exploration",
+        "assumptions": TRUST,
+        "stages": [{"driver": "float", "stage": "half", "flavour": "asan-full"},
+                   {"driver": "float", "stage": "single", "flavour": "asan-full", "tiers": ("quick",)},
+                   {"driver": "float", "stage": "single", "flavour": "ubsan-O2", "tiers": ("thorough",)},
+                   {"driver": "float", "stage": "double", "flavour": "asan-full"},
+                   {"driver": "float", "stage": "half", "flavour": "plain-O2"}],
+    },
+    "C16": {
+        "level": "exploration",
+        "assumptions": TRUST,
+        "stages": [{"driver": "utf8", "stage": "bytes", "flavour": "asan", "budget": {"quick": 3, "thorough": 3}},
+                   {"driver": "utf8", "stage": "bytes", "flavour": "plain-O2", "budget": {"thorough": 4}, "budget2": {"thorough": 4}, "tiers": ("thorough",)},
+                   {"driver": "utf8", "stage": "faults", "flavour": "asan"}],
+    },
 }
